@@ -71,6 +71,10 @@ func (buf *EventsBuffer) PushEvent(de dag.Event, peer string) (complete bool) {
 }
 
 func (buf *EventsBuffer) pushEvent(e *event, incompleteEventsList []*event, recheck bool) bool {
+	if recheck && e.released {
+		// the copy from a stale incompletes snapshot was already handled
+		return false
+	}
 	if buf.callback.Exists(e.event.ID()) {
 		buf.incompletes.Remove(e.event.ID())
 		if !recheck {
